@@ -147,7 +147,52 @@ def ob_eia(L, seed):
                           "LENGTH = %d bits; keystream symbolic; structured concrete messages (all-zero, all-one, alternating, seeded random, single bits at word and LENGTH boundaries)" % L, body, STUBS)
 
 
+def ob_eia_symbolic(L):
+    """EIA3 with a SYMBOLIC message: the per-bit branch `if bit set { t ^= find_word(..) }` is merged into an if-then-else
+    (diamond merging with a pure call in the arm), so the MAC is compared for every message of LENGTH bits"""
+    def body(stats):
+        c = load_crate(CRATE)
+        nk = (L + 31) // 32 + 2
+        nw = (L + 31) // 32 + 1
+        zs = [z3.BitVec("z%d" % i, 32) for i in range(nk)]
+        Zcat = z3.Concat(*zs)
+        def window(i):
+            hi = 32 * nk - 1 - i
+            return z3.Extract(hi, hi - 31, Zcat)
+        def run(ctx):
+            dom, ex, log = world(c, ctx)
+            ex.merge_pure = True
+            msg = [dom.sym("m%d" % i, "u32") for i in range(nw)]
+            st = Cell(Agg([Agg([Sc(0, "usize")], name="ZUC")], name="EIA"), "eia")
+            r = ex.run_fn(c.find("EIA::gen_mac"), [Ref(st, (), None, True), Ref(Cell(Agg(list(msg), name="array"), "m"), (), (0, nw)), Sc(L, "u32")])
+            return dom, log, msg, r
+        paths = explore(run, max_paths=4)
+        check_all_panics(stats, paths)
+        lv = live_paths(paths)
+        if len(lv) != 1:
+            raise Inconclusive("EIA3 with a symbolic message: %d paths (the per-bit branch was not merged)" % len(lv))
+        ctx, (dom, log, msg, r) = lv[0]
+        if log["req"] != [nk]:
+            raise Violation("EIA3 requests %s keystream words for LENGTH %d (expected %d)" % (log["req"], L, nk))
+        # specification, written with shifts so that it has the same term structure as the merged code value:
+        # window(i) = (z[i/32] << (i%32)) | (z[i/32+1] >> (32 - i%32)); bit i of the message = m[i/32] & (1 << (31 - i%32))
+        def win(i):
+            j, s = i >> 5, i & 31
+            return zs[j] if s == 0 else ((zs[j] << s) | z3.LShR(zs[j + 1], 32 - s))
+        t = z3.BitVecVal(0, 32)
+        for i in range(L):
+            setb = z3.UGT(dom.term(msg[i >> 5]) & z3.BitVecVal(1 << (31 - (i & 31)), 32), z3.BitVecVal(0, 32))
+            t = z3.If(setb, t ^ win(i), t)
+        t = t ^ win(L) ^ zs[nk - 1]
+        named = {"z%d" % i: zs[i] for i in range(nk)}
+        named.update({"m%d" % i: z3.BitVec("m%d" % i, 32) for i in range(nw)})
+        discharge(stats, ctx.facts + ctx.pc, dom.term(r) == t, "EIA3 MAC == 3GPP formula for EVERY message of LENGTH bits (bits beyond LENGTH ignored)", named, 120)
+        return {}
+    return run_obligation("m_eia_symbolic_message_len_%05d" % L, ["gm_zuc::eia::EIA::gen_mac", "gm_zuc::eia::find_word"], "LENGTH = %d bits; message AND keystream symbolic" % L, body, STUBS)
+
+
 def jobs(tier, seed):
     eea = [0, 1, 31, 32, 33, 64, 255, 256, 257, 1023, 1024, 1025, 4096] if tier == "quick" else list(range(0, 131)) + [255, 256, 257, 511, 512, 513, 1023, 1024, 1025, 4095, 4096, 4097, 65535, 65536, 65537]
     eia = [0, 1, 32, 33, 255, 256, 257, 1024] if tier == "quick" else list(range(0, 70)) + [255, 256, 257, 511, 512, 513, 1023, 1024, 1025, 4096, 8191]
-    return [lambda: ob_iv("EEA"), lambda: ob_iv("EIA")] + [(lambda L=L: ob_eea(L)) for L in eea] + [(lambda L=L: ob_eia(L, seed)) for L in eia]
+    sym = [0, 1, 31, 32, 33, 64, 65, 128, 255, 256, 257] if tier == "quick" else list(range(0, 131)) + [255, 256, 257, 511, 512, 513, 1024]
+    return [lambda: ob_iv("EEA"), lambda: ob_iv("EIA")] + [(lambda L=L: ob_eia_symbolic(L)) for L in sym] + [(lambda L=L: ob_eea(L)) for L in eea] + [(lambda L=L: ob_eia(L, seed)) for L in eia]
